@@ -102,7 +102,7 @@ def do_op(op, mutate=False):
                 al = c02.apply_op(al, o2)
             out = ["ok", sorted([[a.rect.center.x, a.rect.center.y, a.rect.shape.w, a.rect.shape.h, a.rect.region, a.rect.fixed],
                                  sorted(a.alloc.items()), a.depth] for a in al.allocations),
-                   bool(al.must_be_refined(0.5))]
+                   bool(al.must_be_refined(0.5)), al.max_refinement_depth()]
             if mutate:
                 al.allocations.clear()
             return sig12(out)
@@ -323,6 +323,8 @@ def run_case(c):
         cls.append("probe-loaded-from-a-file-name-used-before")
     if any(h.get("note") == "same-inequalities-other-construction" for h in hist):
         cls.append("history-with-other-robdd-construction")
+    if probe.get("note") == "depth-of-earlier-allocations":
+        cls.append("allocation-measured-after-other-allocations-were-measured-and-dropped")
     return dict(nt=(len(hist) >= 2 and probe["kind"] in fam) or any(h.get("scale", 1) != probe.get("scale", 1) for h in hist) or bool(probe.get("big")), cls=cls)
 
 
@@ -460,6 +462,15 @@ def case_s(draw):
                 h2 = draw(op_s(base))
             h = h2
         hist.append(h)
+    if probe["kind"] == "alloc" and draw(_i(0, 1)) == 0:
+        # allocations that were measured / brought to uniform depth and dropped before the probed one is loaded and measured
+        probe["ops"] = probe["ops"][:1] + [["uniform"]]
+        hist = []
+        for _ in range(draw(_i(2, 5))):
+            h = draw(op_s(base, allow_scale=False, allow_bad=False, kinds=["alloc"]))
+            h["ops"] = h["ops"][:draw(_i(0, 1))] + [["uniform"]]
+            hist.append(h)
+        probe["note"] = "depth-of-earlier-allocations"
     if probe["kind"] == "sat" and hist and draw(_i(0, 2)) == 0:
         # another manager encodes the probe's inequalities with the OTHER decision-diagram construction first
         twin = copy.deepcopy(probe)
@@ -513,4 +524,5 @@ def subchecks():
             Sub("histories", run_case, strategy=case_s(), n_quick=1600, n_thorough=40000, reset=False, shrink_quick=True,
                 required=tuple("probe-" + f for f in FAMILIES) + ("history-with-degenerate-netlist", "history-mutates-results",
                                                                    "history-with-rejected-design", "history-100x-larger", "probe-rejected",
-                                                                   "history-with-other-robdd-construction"))]
+                                                                   "history-with-other-robdd-construction",
+                                                                   "allocation-measured-after-other-allocations-were-measured-and-dropped"))]
